@@ -41,6 +41,8 @@ package antispoof
 //@ func (m *Manager) AddAllowedRange
 //@   modifies nothing
 //@   ensures err == nil && len(network.IP) == 4 ==> key.IP == network.IP[0] + 256*network.IP[1] + 65536*network.IP[2] + 16777216*network.IP[3]
+// ... and for the 16-byte form of an IPv4 network (net.ParseIP, net.IPv4) its last four bytes
+//@   ensures err == nil && len(network.IP) == 16 ==> key.IP == network.IP[12] + 256*network.IP[13] + 65536*network.IP[14] + 16777216*network.IP[15]
 
 //@ func (m *Manager) SetMode
 //@   modifies m.mode
